@@ -100,6 +100,10 @@ func genBEBase(r *rand.Rand, mode string) *Scenario {
 	sc := &Scenario{Engine: "be", TickNs: pick(r, int64(1), 100, 100, 1000), MapSeed: r.Uint64(), JitterSeed: r.Uint64()}
 	sc.NoFastPath = chance(r, 0.1)
 	sc.BE = &BEScenario{Mode: mode, Backend: pick(r, "sharded", "syncmap", "shardedOf")}
+	if sc.BE.Backend != "shardedOf" && chance(r, 0.25) {
+		sc.BE.ValRep = pick(r, "slice", "map", "box", "ptr")
+	}
+
 	sc.Sched = genSched(r, 60)
 
 	return sc
@@ -296,6 +300,7 @@ func shrinkBE(sc *Scenario, yield func(c *Scenario) bool) {
 	}
 
 	cfgMods := []func(c *BEScenario) bool{
+		func(c *BEScenario) bool { ok := c.ValRep != ""; c.ValRep = ""; return ok },
 		func(c *BEScenario) bool { ok := c.Cfg.Stats; c.Cfg.Stats = false; return ok },
 		func(c *BEScenario) bool { ok := c.Cfg.Logger; c.Cfg.Logger = false; return ok },
 		func(c *BEScenario) bool { ok := c.Cfg.Strategy != 0; c.Cfg.Strategy = 0; return ok },
